@@ -14,23 +14,32 @@ variable {F : Type} [Field F] [LinearOrder F] [IsStrictOrderedRing F]
 
 /-! ### Saturation -/
 
-theorem saturation_in_bounds (x a b : F) (hab : a < b) :
+/-- (`clamp` asserts `a ≤ b`; a one-point domain is fine for Saturation.) -/
+theorem saturation_in_bounds (x a b : F) (hab : a ≤ b) :
     ∃ y, saturation x (a, b) = some y ∧ a ≤ y ∧ y ≤ b := by
-  obtain ⟨y, h, h1, h2, _⟩ := clamp_spec x a b hab.le
+  obtain ⟨y, h, h1, h2, _⟩ := clamp_spec x a b hab
   exact ⟨y, h, h1, h2⟩
 
-theorem saturation_fix_inside (x a b : F) (hab : a < b) (h1 : a ≤ x) (h2 : x ≤ b) :
+theorem saturation_fix_inside (x a b : F) (h1 : a ≤ x) (h2 : x ≤ b) :
     saturation x (a, b) = some x := by
-  obtain ⟨y, h, _, _, hfix⟩ := clamp_spec x a b hab.le
+  obtain ⟨y, h, _, _, hfix⟩ := clamp_spec x a b (le_trans h1 h2)
   have e := hfix h1 h2
   subst e; exact h
 
-theorem saturation_idem (x y a b : F) (hab : a < b) (h : saturation x (a, b) = some y) :
+/-- Whatever Saturation returns is inside (it returns nothing — `clamp` panics — iff `a > b`). -/
+theorem saturation_result (x y a b : F) (h : saturation x (a, b) = some y) :
+    a ≤ y ∧ y ≤ b ∧ (a ≤ x → x ≤ b → y = x) := by
+  by_cases hab : a ≤ b
+  · obtain ⟨y', h', h1, h2, hfix⟩ := clamp_spec x a b hab
+    have : y = y' := Option.some.inj (h.symm.trans h')
+    subst this
+    exact ⟨h1, h2, hfix⟩
+  · simp [saturation, clamp, hab] at h
+
+theorem saturation_idem (x y a b : F) (h : saturation x (a, b) = some y) :
     saturation y (a, b) = some y := by
-  obtain ⟨y', h', h1, h2, _⟩ := clamp_spec x a b hab.le
-  have : y = y' := Option.some.inj (h.symm.trans h')
-  subst this
-  exact saturation_fix_inside y a b hab h1 h2
+  obtain ⟨h1, h2, _⟩ := saturation_result x y a b h
+  exact saturation_fix_inside y a b h1 h2
 
 /-! ### Toroidal (the code's formula, `floor` instantiated with the floor of a `FloorRing`) -/
 
@@ -218,7 +227,7 @@ theorem saturation_solution_in_bounds (sol : List F) (dom : List (F × F)) (hl :
     ∃ ys, zipDomainM saturation sol dom = some ys ∧ ys.length = sol.length ∧
       ∀ k (hk : k < ys.length) (hk' : k < dom.length), dom[k].1 ≤ ys[k] ∧ ys[k] ≤ dom[k].2 :=
   zipDomainM_all saturation (fun d y => d.1 ≤ y ∧ y ≤ d.2) sol dom hl
-    (fun k _ hk' => saturation_in_bounds sol[k] dom[k].1 dom[k].2 (hd _ (List.getElem_mem hk')))
+    (fun k _ hk' => saturation_in_bounds sol[k] dom[k].1 dom[k].2 (hd _ (List.getElem_mem hk')).le)
 
 theorem toroidal_solution_in_bounds [FloorRing F] (sol : List F) (dom : List (F × F))
     (hl : sol.length = dom.length) (hd : ∀ d ∈ dom, d.1 < d.2) :
@@ -240,6 +249,173 @@ theorem onetailed_solution_in_bounds (sol : List F) (dom : List (F × F)) (scrip
     ∀ k (hk : k < ys.length) (hk' : k < dom.length), dom[k].1 ≤ ys[k] ∧ ys[k] ≤ dom[k].2 :=
   oneTailedSolution_in_bounds sol dom script ys rest hl h
 end Solutions
+
+/-! ### Whole solutions and the driver `boundary_constraint`
+
+`Repaired dom sol ys` (Proofs/C14.lean) is what the property demands of one solution: same dimension,
+every coordinate `k` within `dom[k]`, and equal to `sol[k]` if that already was within `dom[k]`.
+`satOp … otnOp` are the four operators as the driver sees them; `boundaryConstraint op stack s` is the
+driver on the population stack (last = current). -/
+
+section Driver
+variable {F : Type} [Field F] [LinearOrder F] [IsStrictOrderedRing F]
+
+theorem saturation_solution_repaired {S : Type} (dom : List (F × F)) (sol ys : List F) (s s' : S)
+    (h : satOp dom sol s = some (ys, s')) : Repaired dom sol ys := by
+  unfold satOp at h
+  cases hz : zipDomainM saturation sol dom with
+  | none => simp [hz] at h
+  | some zs =>
+    simp only [hz, Option.some.injEq, Prod.mk.injEq] at h
+    obtain ⟨rfl, _⟩ := h
+    exact zipDomainM_pointwise saturation RepairedCoord
+      (fun x d y hy => saturation_result x y d.1 d.2 hy) sol dom zs hz
+
+theorem toroidal_solution_repaired [FloorRing F] {S : Type} (dom : List (F × F)) (hd : ∀ d ∈ dom, d.1 < d.2)
+    (sol ys : List F) (s s' : S) (h : torOp floorF dom sol s = some (ys, s')) : Repaired dom sol ys := by
+  simp only [torOp, Option.some.injEq, Prod.mk.injEq] at h
+  obtain ⟨rfl, _⟩ := h
+  refine ⟨zipDomain_length _ sol dom, ?_⟩
+  exact zipDomain_pointwise (toroidal floorF) RepairedCoord sol dom
+    (fun x d hmem => ⟨(toroidal_in_bounds x d.1 d.2 (hd d hmem)).1, (toroidal_in_bounds x d.1 d.2 (hd d hmem)).2,
+      fun h1 h2 => toroidal_fix_inside x d.1 d.2 h1 h2⟩)
+
+/-- Mirror, whatever `rem_euclid` and the fuel are: if it returns, the solution is repaired. -/
+theorem mirror_solution_repaired {S : Type} (rem : F → F → F) (fuel : Nat) (dom : List (F × F))
+    (sol ys : List F) (s s' : S) (h : mirOp rem fuel dom sol s = some (ys, s')) : Repaired dom sol ys := by
+  unfold mirOp at h
+  cases hz : zipDomainM (mirror rem fuel) sol dom with
+  | none => simp [hz] at h
+  | some zs =>
+    simp only [hz, Option.some.injEq, Prod.mk.injEq] at h
+    obtain ⟨rfl, _⟩ := h
+    refine zipDomainM_pointwise (mirror rem fuel) RepairedCoord (fun x d y hy => ?_) sol dom zs hz
+    obtain ⟨h1, h2⟩ := mirror_result_in_bounds rem d.1 d.2 x y fuel hy
+    refine ⟨h1, h2, fun hx1 hx2 => ?_⟩
+    have := mirror_fix_inside rem d.1 d.2 x fuel hx1 hx2
+    exact Option.some.inj (hy.symm.trans this)
+
+theorem onetailed_solution_repaired (dom : List (F × F)) (sol ys script rest : List F)
+    (h : otnOp dom sol script = some (ys, rest)) : Repaired dom sol ys := by
+  refine oneTailedSolution_pointwise RepairedCoord (fun a b sc x y r hy => ?_) sol dom script ys rest h
+  obtain ⟨h1, h2, _⟩ := oneTailedLoop_result a b sc x y r hy
+  refine ⟨h1, h2, fun hx1 hx2 => ?_⟩
+  have := oneTailedLoop_inside a b sc x hx1 hx2
+  have e := Option.some.inj (hy.symm.trans this)
+  exact (Prod.mk.inj e).1
+
+/-- A solution that is inside in every coordinate is returned unchanged by each operator, and the
+random source is not touched. -/
+theorem operators_fix_inside_solutions [FloorRing F] (rem : F → F → F) (fuel : Nat) (dom : List (F × F))
+    (ys : List F) (script : List F) (h : AllInside dom ys) :
+    satOp dom ys script = some (ys, script) ∧ torOp floorF dom ys script = some (ys, script) ∧
+    mirOp rem fuel dom ys script = some (ys, script) ∧ otnOp dom ys script = some (ys, script) := by
+  refine ⟨?_, ?_, ?_, ?_⟩
+  · have := zipDomainM_fixed saturation (fun d x => d.1 ≤ x ∧ x ≤ d.2)
+      (fun x d hi => saturation_fix_inside x d.1 d.2 hi.1 hi.2) ys dom h
+    simp [satOp, this]
+  · have := zipDomain_fixed (toroidal floorF) (fun d x => d.1 ≤ x ∧ x ≤ d.2)
+      (fun x d hi => toroidal_fix_inside x d.1 d.2 hi.1 hi.2) ys dom h
+    simp [torOp, this]
+  · have := zipDomainM_fixed (mirror rem fuel) (fun d x => d.1 ≤ x ∧ x ≤ d.2)
+      (fun x d hi => mirror_fix_inside rem d.1 d.2 x fuel hi.1 hi.2) ys dom h
+    simp [mirOp, this]
+  · exact oneTailedSolution_fixed (fun d x => d.1 ≤ x ∧ x ≤ d.2)
+      (fun a b sc x hi => oneTailedLoop_inside a b sc x hi.1 hi.2) ys dom script h
+
+/-- The driver touches only the current population: the stack keeps its height, the populations
+below are returned as they were, and the current one is what `constrainAll` makes of it.  On an empty
+stack it does not return (`current_mut` panics). -/
+theorem boundary_constraint_frame {S : Type} (op : List F → S → Option (List F × S))
+    (stack stack' : List (List (List F))) (s s' : S) :
+    boundaryConstraint op ([] : List (List (List F))) s = none ∧
+    (boundaryConstraint op stack s = some (stack', s') →
+      ∃ below top top', stack = below ++ [top] ∧ stack' = below ++ [top'] ∧
+        constrainAll op top s = some (top', s')) :=
+  ⟨boundaryConstraint_nil op s, boundaryConstraint_some op stack stack' s s'⟩
+
+/-- Saturation through the driver: it returns; every solution of the current population is repaired
+(in bounds per dimension, inside coordinates untouched, dimension kept), nothing else changes, and
+applying it again changes nothing. -/
+theorem saturation_population {S : Type} (dom : List (F × F)) (hd : ∀ d ∈ dom, d.1 ≤ d.2)
+    (below : List (List (List F))) (top : List (List F)) (hdim : ∀ sol ∈ top, sol.length = dom.length) (s : S) :
+    ∃ top', boundaryConstraint (satOp dom) (below ++ [top]) s = some (below ++ [top'], s) ∧
+      List.Forall₂ (Repaired dom) top top' ∧
+      ∀ s2 : S, boundaryConstraint (satOp dom) (below ++ [top']) s2 = some (below ++ [top'], s2) := by
+  obtain ⟨top', hc⟩ := constrainAll_returns (satOp (S := S) dom) top s (fun sol hsol => by
+    obtain ⟨ys, hys, _⟩ := zipDomainM_all saturation (fun _ _ => True) sol dom (hdim sol hsol)
+      (fun k _ hk' => by
+        obtain ⟨y, hy, _⟩ := saturation_in_bounds sol[k] dom[k].1 dom[k].2 (hd _ (List.getElem_mem hk'))
+        exact ⟨y, hy, trivial⟩)
+    exact ⟨ys, by simp [satOp, hys]⟩)
+  have hb : boundaryConstraint (satOp dom) (below ++ [top]) s = some (below ++ [top'], s) := by
+    rw [boundaryConstraint_concat, hc]
+  obtain ⟨hr, hid⟩ := constrainAll_repairs (satOp (S := S) dom) dom
+    (fun sol s y s' h => saturation_solution_repaired dom sol y s s' h)
+    (fun ys s hi => by
+      have := zipDomainM_fixed saturation (fun d x => d.1 ≤ x ∧ x ≤ d.2)
+        (fun x d hi => saturation_fix_inside x d.1 d.2 hi.1 hi.2) ys dom hi
+      simp [satOp, this])
+    below top top' s s hc
+  exact ⟨top', hb, hr, hid⟩
+
+theorem toroidal_population [FloorRing F] {S : Type} (dom : List (F × F)) (hd : ∀ d ∈ dom, d.1 < d.2)
+    (below : List (List (List F))) (top : List (List F)) (s : S) :
+    ∃ top', boundaryConstraint (torOp floorF dom) (below ++ [top]) s = some (below ++ [top'], s) ∧
+      List.Forall₂ (Repaired dom) top top' ∧
+      ∀ s2 : S, boundaryConstraint (torOp floorF dom) (below ++ [top']) s2 = some (below ++ [top'], s2) := by
+  obtain ⟨top', hc⟩ := constrainAll_returns (torOp (S := S) floorF dom) top s (fun sol _ => ⟨_, rfl⟩)
+  have hb : boundaryConstraint (torOp floorF dom) (below ++ [top]) s = some (below ++ [top'], s) := by
+    rw [boundaryConstraint_concat, hc]
+  obtain ⟨hr, hid⟩ := constrainAll_repairs (torOp (S := S) floorF dom) dom
+    (fun sol s y s' h => toroidal_solution_repaired dom hd sol y s s' h)
+    (fun ys s hi => by
+      have := zipDomain_fixed (toroidal floorF) (fun d x => d.1 ≤ x ∧ x ≤ d.2)
+        (fun x d hi => toroidal_fix_inside x d.1 d.2 hi.1 hi.2) ys dom hi
+      simp [torOp, this])
+    below top top' s s hc
+  exact ⟨top', hb, hr, hid⟩
+
+/-- Mirror through the driver: for EVERY population of solutions of the problem's dimension it returns
+(fuel for a single pass of the loop suffices), repaired, frame kept, idempotent. -/
+theorem mirror_population [FloorRing F] {S : Type} (dom : List (F × F)) (hd : ∀ d ∈ dom, d.1 < d.2)
+    (fuel : Nat) (hf : 1 ≤ fuel)
+    (below : List (List (List F))) (top : List (List F)) (hdim : ∀ sol ∈ top, sol.length = dom.length) (s : S) :
+    ∃ top', boundaryConstraint (mirOp remE fuel dom) (below ++ [top]) s = some (below ++ [top'], s) ∧
+      List.Forall₂ (Repaired dom) top top' ∧
+      ∀ s2 : S, boundaryConstraint (mirOp remE fuel dom) (below ++ [top']) s2 = some (below ++ [top'], s2) := by
+  obtain ⟨top', hc⟩ := constrainAll_returns (mirOp (S := S) remE fuel dom) top s (fun sol hsol => by
+    obtain ⟨ys, hys, _⟩ := zipDomainM_all (mirror remE fuel) (fun _ _ => True) sol dom (hdim sol hsol)
+      (fun k _ hk' => by
+        obtain ⟨y, hy, _⟩ := mirror_returns dom[k].1 dom[k].2 sol[k] (hd _ (List.getElem_mem hk')) fuel hf
+        exact ⟨y, hy, trivial⟩)
+    exact ⟨ys, by simp [mirOp, hys]⟩)
+  have hb : boundaryConstraint (mirOp remE fuel dom) (below ++ [top]) s = some (below ++ [top'], s) := by
+    rw [boundaryConstraint_concat, hc]
+  obtain ⟨hr, hid⟩ := constrainAll_repairs (mirOp (S := S) remE fuel dom) dom
+    (fun sol s y s' h => mirror_solution_repaired remE fuel dom sol y s s' h)
+    (fun ys s hi => by
+      have := zipDomainM_fixed (mirror remE fuel) (fun d x => d.1 ≤ x ∧ x ≤ d.2)
+        (fun x d hi => mirror_fix_inside remE d.1 d.2 x fuel hi.1 hi.2) ys dom hi
+      simp [mirOp, this])
+    below top top' s s hc
+  exact ⟨top', hb, hr, hid⟩
+
+/-- The resampling operator through the driver, for every script of deviates: if it returns, the
+frame is kept, every solution of the current population is repaired, and a second application —
+with ANY further script — changes nothing and consumes nothing. -/
+theorem onetailed_population (dom : List (F × F)) (stack stack' : List (List (List F)))
+    (script rest : List F) (h : boundaryConstraint (otnOp dom) stack script = some (stack', rest)) :
+    ∃ below top top', stack = below ++ [top] ∧ stack' = below ++ [top'] ∧
+      List.Forall₂ (Repaired dom) top top' ∧
+      ∀ script2 : List F, boundaryConstraint (otnOp dom) stack' script2 = some (stack', script2) :=
+  boundaryConstraint_repairs (otnOp dom) dom
+    (fun sol s y s' h => onetailed_solution_repaired dom sol y s s' h)
+    (fun ys s hi => oneTailedSolution_fixed (fun d x => d.1 ≤ x ∧ x ≤ d.2)
+      (fun a b sc x hi => oneTailedLoop_inside a b sc x hi.1 hi.2) ys dom s hi)
+    stack stack' script rest h
+
+end Driver
 
 /-! ### Every operator keeps the dimension of the solution -/
 
@@ -264,6 +440,18 @@ theorem init_pushes_one {σ : Type} (stack : List (List (Ind σ))) (sols : List 
     (initPush stack sols).getLast? = some (intoIndividuals sols) ∧
     (initEmpty stack).length = stack.length + 1 ∧ (initEmpty stack).getLast? = some [] := by
   simp [initPush, initEmpty]
+
+/-- Whatever the generator returned (`RandomSpread`, `RandomPermutation`, `RandomBitstring` alike): the
+pushed population holds exactly these solutions, in order, every one of them unevaluated. -/
+theorem init_population_unevaluated {σ : Type} (stack : List (List (Ind σ))) (sols : List σ) :
+    ∃ pop, (initPush stack sols).getLast? = some pop ∧ pop.length = sols.length ∧
+      pop.map (·.sol) = sols ∧ ∀ ind ∈ pop, ind.evaluated = false := by
+  refine ⟨intoIndividuals sols, by simp [initPush], by simp [intoIndividuals], ?_, ?_⟩
+  · simp [intoIndividuals, Function.comp_def]
+  · intro ind hind
+    simp only [intoIndividuals, List.mem_map] at hind
+    obtain ⟨_, _, rfl⟩ := hind
+    rfl
 
 /-- `RandomSpread` creates exactly `n` unevaluated individuals of the problem's dimension. -/
 theorem init_count_dim_unevaluated {F : Type} (dom : List (F × F)) (n : Nat) (draw : Nat → Nat → F) :
@@ -366,6 +554,7 @@ theorem random_bitstring_shape (dim n : Nat) (bit : Nat → Nat → Bool) :
 
 /-! Non-vacuity: the hypotheses are satisfiable on concrete inputs (integer arithmetic). -/
 example : saturation (7 : Int) (-1, 1) = some 1 := by decide
+example : saturation (7 : Int) (3, 3) = some 3 := by decide
 example : mirrorIter (-1 : Int) 1 3 7 = -1 := by decide
 example : mirrorLoop (-10 : Int) 10 5 (-65) = some 5 := by decide
 example : oneTailedLoop (0 : Int) 9 [5, 1] (-4) = some (6, []) := by decide
@@ -381,6 +570,12 @@ example : ⌈|(7 : Rat) - (-1)| / (1 - (-1))⌉₊ ≤ 4 := by
 example : mirror (fun x m : Int => x % m) 1 100000000000000000 (-1, 1) = some 0 := by decide
 example : mirror (fun x m : Int => x % m) 1 (-65) (-10, 10) = some 5 := by decide
 example : mirrorStepwise 5 (-65 : Int) (-10, 10) = some 5 := by decide
+/-- the driver on a stack of two populations (integer carrier): only the current one is repaired -/
+example : boundaryConstraint (satOp [((-1 : Int), 1), (0, 10)]) [[[5, 50]], [[-7, 3], [0, 12]]] () =
+    some ([[[5, 50]], [[-1, 3], [0, 10]]], ()) := by decide
+example : boundaryConstraint (mirOp (fun x m : Int => x % m) 1 [((-1 : Int), 1), (0, 10)]) [[[5, 50]], [[-7, 3], [0, 12]]] () =
+    some ([[[5, 50]], [[1, 3], [0, 8]]], ()) := by decide
+example : boundaryConstraint (otnOp [((0 : Int), 9)]) [[[-4], [5]]] [6, 1] = some ([[[6], [5]]], []) := by decide
 /-- a coordinate within one width: the hypotheses of `mirror_near_is_stepwise` -/
 example : (-1 : Rat) - (1 - (-1)) ≤ -3 ∧ (-3 : Rat) ≤ 1 + (1 - (-1)) := by norm_num
 
